@@ -1,12 +1,13 @@
 #!/usr/bin/env python3-vt
 """Create a mutant/benign patch against the current /repo tree.
-usage: mkpatch.py <prop> <mutants|benign> <name> --expect STR --about STR --edit FILE OLD NEW [--edit ...] [--all]
+usage: mkpatch.py <prop> <mutants|benign> <name> --expect STR --about STR --edit FILE OLD NEW [--edit ...] [--all] [--root DIR]
 OLD must occur exactly once in FILE unless --all is given."""
 import difflib, os, sys
 args = sys.argv[1:]
 prop, kind, name = args[:3]
 args = args[3:]
 expect = about = None
+ROOT = '/repo'
 edits = []
 allocc = False
 i = 0
@@ -14,6 +15,7 @@ while i < len(args):
     if args[i] == '--expect': expect = args[i+1]; i += 2
     elif args[i] == '--about': about = args[i+1]; i += 2
     elif args[i] == '--all': allocc = True; i += 1
+    elif args[i] == '--root': ROOT = args[i+1]; i += 2
     elif args[i] == '--edit': edits.append(tuple(args[i+1:i+4])); i += 4
     else: sys.exit('bad arg ' + args[i])
 out = []
@@ -23,14 +25,14 @@ byfile = {}
 for f, old, new in edits:
     src = byfile.get(f)
     if src is None:
-        src = open(os.path.join('/repo', f)).read()
+        src = open(os.path.join(ROOT, f)).read()
     old = old.encode().decode('unicode_escape'); new = new.encode().decode('unicode_escape')
     c = src.count(old)
     if c == 0 or (c != 1 and not allocc):
         sys.exit('%s: OLD occurs %d times' % (f, c))
     byfile[f] = src.replace(old, new)
 for f, new in byfile.items():
-    old = open(os.path.join('/repo', f)).read()
+    old = open(os.path.join(ROOT, f)).read()
     out += list(difflib.unified_diff(old.splitlines(True), new.splitlines(True), 'a/' + f, 'b/' + f))
 d = os.path.join(os.path.dirname(os.path.dirname(os.path.abspath(__file__))), kind, prop)
 os.makedirs(d, exist_ok=True)
